@@ -28,7 +28,8 @@ SCHED_PANICS = ("unable to proceed", "Unable to proceed", "is not available", "I
 
 
 def source_path(rel):
-    return os.path.join(common.TESTDATA, rel)
+    """fixture-relative path, or an absolute path (generated sources) as is"""
+    return rel if os.path.isabs(rel) else os.path.join(common.TESTDATA, rel)
 
 
 def traced_builds(ctx, sources, configs, procs=6):
@@ -61,7 +62,7 @@ def load_graph(run):
     return g
 
 
-def validate_traces(ctx, jobs, procs=8, timeout=180):
+def validate_traces(ctx, jobs, procs=8, timeout=1500):
     """jobs: list of (label, graph_json_path, trace_ndjson_path). Returns list of (label, status, detail)
     with status in accepted | invariant:<name> | stuck | tool-error."""
     def one(job):
@@ -90,3 +91,54 @@ def stuck_at(r, tpath):
     lines = open(tpath).read().splitlines()
     ev = json.loads(lines[k - 1]) if 0 < k <= len(lines) else None
     return k, ev
+
+
+def scheduler_minifonts(ctx):
+    """Generated sources that exercise data-dependent parts of the job graph which the fixtures do not:
+    components that differ between masters, deep nesting through non-exported glyphs, kerning only in a
+    non-default master, a mixed glyph that is split, many glyphs. Returns [(label, path, flags)]."""
+    import minifont
+    out = []
+
+    def emit(name, mf, flag_sets=((),)):
+        d = ctx.path("minifonts", name, "x")[:-2]
+        p = minifont.materialize(mf, d)
+        for fl in flag_sets:
+            out.append(("minifont:" + name, p, list(fl)))
+
+    # 1. component present only in the non-default master + nesting
+    mf = minifont.template_wght(("a", "b", "c", "d", "e"))
+    g = {x["name"]: x for x in mf["glyphs"]}
+    g["c"]["layers"]["Regular"] = {"width": 500, "components": [{"base": "a"}]}
+    g["c"]["layers"]["Bold"] = {"width": 600, "components": [{"base": "a"}, {"base": "b", "xform": [1, 0, 0, 1, 30, 0]}]}
+    g["d"]["layers"]["Regular"] = {"width": 500, "components": [{"base": "c"}]}
+    g["d"]["layers"]["Bold"] = {"width": 600, "components": [{"base": "c", "xform": [1, 0, 0, 1, 5, 5]}]}
+    g["e"]["layers"]["Regular"] = {"width": 500, "contours": [minifont.square(0, 0, 100, 100)], "components": [{"base": "d"}]}
+    g["e"]["layers"]["Bold"] = {"width": 600, "contours": [minifont.square(0, 0, 120, 100)], "components": [{"base": "d"}]}
+    emit("varying-components", mf, ((), ("flatten",), ("decompose_transformed",)))
+    # 2. non-exported glyphs in the middle of a chain, .notdef non-exported
+    mf = minifont.template_wght((".notdef", "a", "b", "c", "d"))
+    g = {x["name"]: x for x in mf["glyphs"]}
+    for m in ("Regular", "Bold"):
+        g["b"]["layers"][m] = {"width": 500, "components": [{"base": "a", "xform": [1, 0, 0, 1, 10, 0]}]}
+        g["c"]["layers"][m] = {"width": 500, "components": [{"base": "b", "xform": [-1, 0, 0, 1, 400, 0]}]}
+        g["d"]["layers"][m] = {"width": 500, "components": [{"base": "c"}, {"base": "a"}]}
+    mf["skip_export"] = ["b", ".notdef"]
+    emit("non-export-chain", mf, ((), ("flatten",)))
+    # 3. kerning only in the non-default master; groups only in one
+    mf = minifont.template_wght(("a", "b", "c"))
+    mf["masters"][1]["kerning"] = {"a": {"b": -30}, "public.kern1.x": {"c": 10}}
+    mf["masters"][1]["groups"] = {"public.kern1.x": ["b", "c"]}
+    emit("kerning-non-default-only", mf)
+    # 4. many glyphs, composites over all of them
+    names = ["g%02d" % i for i in range(28)]
+    mf = minifont.template_wght(tuple(names))
+    for i, gl in enumerate(mf["glyphs"]):
+        gl["unicodes"] = [0x100 + i]
+        if i % 4 == 3:
+            for m in ("Regular", "Bold"):
+                gl["layers"][m] = {"width": 500, "components": [{"base": names[i - 1]}, {"base": names[i - 3], "xform": [1, 0, 0, 1, 50, 0]}]}
+    mf["masters"][0]["kerning"] = {names[0]: {names[1]: -10}}
+    mf["masters"][1]["kerning"] = {names[0]: {names[1]: -20}, names[2]: {names[5]: 7}}
+    emit("many-glyphs", mf)
+    return out
